@@ -286,6 +286,7 @@ def tangent_to_sky(base, xy):
 
 unit_disk = st.tuples(floats(0.0, 1.0), floats(0.0, 2 * math.pi)).map(lambda t: (math.sqrt(t[0]) * math.cos(t[1]), math.sqrt(t[0]) * math.sin(t[1])))
 GRID = [(gx, gy) for gx in (-1, 0, 1) for gy in (-1, 0, 1)]
+GRID_LARGE = [(gx, gy) for gx in (-2, -1, 0, 1) for gy in (-2, -1, 0, 1)]  # for >9 patches (two-digit patch ids)
 
 
 @st.composite
@@ -321,7 +322,7 @@ def scene_case(draw, theta_max, edges, ncat, *, min_patches=1, max_patches=5, ma
     K = draw(st.sampled_from([k for k in range(min_patches, max_patches + 1) for _ in range(1 if k == 1 else 2)]))
     spacing = theta_max * draw(loguniform(0.3, 6.0))
     spacing = min(spacing, 0.5)
-    cells = draw(st.lists(st.sampled_from(GRID), min_size=K, max_size=K, unique=True))
+    cells = draw(st.lists(st.sampled_from(GRID if K <= 9 else GRID_LARGE), min_size=K, max_size=K, unique=True))
     jit = draw(st.lists(st.tuples(floats(-0.25, 0.25), floats(-0.25, 0.25)), min_size=K, max_size=K))
     cxy = np.array([[(c[0] + j[0]) * spacing, (c[1] + j[1]) * spacing] for c, j in zip(cells, jit)])
     cra, cdec = tangent_to_sky(base, cxy)
